@@ -1,16 +1,47 @@
 (* Driver for the extracted C01 oracle.  Reads on stdin
      MESH id nV repV repE repT repG nT  a b c  a b c ...
    (merged, compacted triangle indices; rep* are the library's NumVert/NumEdge/NumTri/Genus)
-   and prints   V id <check_mesh 0|1> <check_counts 0|1>                                  *)
+   and prints   V id <check_mesh 0|1> <check_counts 0|1>
+   PIPE   prints the verdict of pipeline_ok on every generated pass table (Gen/Pipelines.v) *)
 open C01_model
 
 let rec pos_of_int n = if n = 1 then XH else if n land 1 = 0 then XO (pos_of_int (n lsr 1)) else XI (pos_of_int (n lsr 1))
 let z_of_int n = if n = 0 then Z0 else if n > 0 then Zpos (pos_of_int n) else Zneg (pos_of_int (-n))
 
+let rec int_of_pos = function XH -> 1 | XO p -> 2 * int_of_pos p | XI p -> 2 * int_of_pos p + 1
+let int_of_z = function Z0 -> 0 | Zpos p -> int_of_pos p | Zneg p -> - (int_of_pos p)
+
 let () =
   try
     while true do
       let line = input_line stdin in
+      if String.length line > 3 && String.sub line 0 3 = "CH " then begin
+        (* CH id nV nT a b c ... : the ported CreateHalfedges + IsManifold *)
+        let toks = Array.of_list (List.filter (fun s -> s <> "") (String.split_on_char ' ' line)) in
+        let id = toks.(1) in
+        let nT = int_of_string toks.(3) in
+        let tris = ref [] in
+        for t = nT - 1 downto 0 do
+          let iv k = z_of_int (int_of_string toks.(k)) in
+          tris := ((iv (4 + 3 * t), iv (5 + 3 * t)), iv (6 + 3 * t)) :: !tris
+        done;
+        (match create_halfedges !tris with
+         | None -> Printf.printf "H %s UNDEFINED\nM %s UNDEFINED\n" id id
+         | Some h ->
+           let b = Buffer.create 256 in
+           Buffer.add_string b ("H " ^ id);
+           List.iter (fun (s, p) -> Buffer.add_string b (Printf.sprintf " %d %d" (int_of_z s) (int_of_z p))) h;
+           print_endline (Buffer.contents b);
+           (match is_manifold h with
+            | None -> Printf.printf "M %s UNDEFINED\n" id
+            | Some m -> Printf.printf "M %s %d\n" id (if m then 1 else 0)));
+        Printf.printf "G %s %d\n" id (if gate_case !tris then 1 else 0)
+      end else
+      if line = "PIPE" then begin
+        print_string "PIPE";
+        List.iter (fun b -> print_string (if b then " 1" else " 0")) pipeline_verdicts;
+        print_newline ()
+      end else
       if String.length line > 5 && String.sub line 0 5 = "MESH " then begin
         let toks = Array.of_list (List.filter (fun s -> s <> "") (String.split_on_char ' ' line)) in
         let id = toks.(1) in
